@@ -484,4 +484,258 @@ theorem readable_restart (st : Store) (n : Name) : readable (restart st) n = rea
   · exact readable_prune st n
   · rfl
 
+
+/-! ## generic facts about effect lists -/
+
+theorem get_run_of_not_written {es : List Effect} {st : Store} {q : Path}
+    (h : ∀ e ∈ es, q ∉ writes e) : get (run es st) q = get st q := by
+  induction es generalizing st with
+  | nil => rfl
+  | cons e es ih =>
+    simp only [run]
+    rw [ih (fun e' he' => h e' (by simp [he'])), get_apply_of_not_written (h e (by simp))]
+
+/-- effects that only touch scratch files (temp, -partial, -partial-N) -/
+def isScratchEff : Effect → Bool
+  | .mk p | .touch p | .app p _ | .pw p _ _ | .ftr p _ | .put p _ | .rm p => p.isScratch
+  | .chmod _ => true
+  | _ => false
+
+theorem scratchEff_ok {hash : Bytes → Digest} {st : Store} {e : Effect} (h : isScratchEff e = true) :
+    EffOK hash st e := by
+  cases e <;> simp only [isScratchEff] at h <;> simp only [EffOK]
+  case mk p => intro d hp; subst hp; simp [Path.isScratch] at h
+  case touch p => exact h
+  case app p bs => exact h
+  case pw p off bs => exact h
+  case ftr p n => exact h
+  case put p c => exact Or.inl h
+  case rm p => exact Or.inl h
+  all_goals simp at h
+
+theorem scratchEff_writes {e : Effect} (h : isScratchEff e = true) : ∀ p ∈ writes e, p.isScratch = true := by
+  cases e <;> simp only [isScratchEff] at h <;> simp only [writes] <;> intro p hp <;> simp at hp
+  all_goals first | (subst hp; exact h) | (simp at h)
+
+theorem seqOK_scratch {hash : Bytes → Digest} {st : Store} {es : List Effect}
+    (h : ∀ e ∈ es, isScratchEff e = true) : SeqOK hash st es := by
+  induction es generalizing st with
+  | nil => trivial
+  | cons e es ih => exact ⟨scratchEff_ok (h e (by simp)), ih (fun e' he' => h e' (by simp [he']))⟩
+
+theorem get_run_scratch {es : List Effect} {st : Store} {q : Path}
+    (h : ∀ e ∈ es, isScratchEff e = true) (hq : q.isScratch = false) : get (run es st) q = get st q := by
+  apply get_run_of_not_written
+  intro e he hmem
+  have := scratchEff_writes (h e he) q hmem
+  simp [hq] at this
+
+/-- manifests unchanged, blobs only added -/
+def Ext (st st' : Store) : Prop :=
+  (∀ n, get st' (.man n) = get st (.man n)) ∧ (∀ d c, get st (.blob d) = some c → get st' (.blob d) = some c)
+
+theorem Ext.refl (st : Store) : Ext st st := ⟨fun _ => rfl, fun _ _ h => h⟩
+
+theorem Ext.trans {a b c : Store} (h1 : Ext a b) (h2 : Ext b c) : Ext a c :=
+  ⟨fun n => (h2.1 n).trans (h1.1 n), fun d x h => h2.2 d x (h1.2 d x h)⟩
+
+theorem Ext.readable {st st' : Store} (h : Ext st st') (n : Name) : readable st' n = readable st n := by
+  unfold readable; rw [h.1]
+
+theorem Ext.present {st st' : Store} (h : Ext st st') {d : Digest} (hp : present st (.blob d) = true) :
+    present st' (.blob d) = true := by
+  unfold present at *
+  cases hg : get st (.blob d) with
+  | none => simp [hg] at hp
+  | some c => rw [h.2 d c hg]; rfl
+
+theorem referenced_congr {st st' : Store} (h : ∀ n, get st' (.man n) = get st (.man n)) (d : Digest) :
+    referenced st' d = referenced st d := by
+  rw [Bool.eq_iff_iff, referenced_iff, referenced_iff]
+  have hr : ∀ n, readable st' n = readable st n := fun n => by unfold readable; rw [h]
+  simp only [hr]
+
+/-! ## Res plumbing -/
+
+theorem andThen_effs (a : Res) (st : Store) (f : Store → Res) :
+    (a.andThen st f).effs = if a.ok then a.effs ++ (f (run a.effs st)).effs else a.effs := by
+  unfold Res.andThen; split <;> rfl
+
+theorem andThen_ok (a : Res) (st : Store) (f : Store → Res) :
+    (a.andThen st f).ok = (a.ok && (f (run a.effs st)).ok) := by
+  unfold Res.andThen; split <;> simp [*]
+
+theorem seqOK_andThen {hash : Bytes → Digest} {a : Res} {st : Store} {f : Store → Res}
+    (ha : SeqOK hash st a.effs)
+    (hf : a.ok = true → SeqOK hash (run a.effs st) (f (run a.effs st)).effs) :
+    SeqOK hash st (a.andThen st f).effs := by
+  rw [andThen_effs]; split
+  · rename_i h; exact seqOK_append.mpr ⟨ha, hf h⟩
+  · exact ha
+
+theorem run_andThen (a : Res) (st : Store) (f : Store → Res) :
+    run (a.andThen st f).effs st =
+      if a.ok then run (f (run a.effs st)).effs (run a.effs st) else run a.effs st := by
+  rw [andThen_effs]; split
+  · rw [run_append]
+  · rfl
+
+/-! ## NewLayer, uploads -/
+
+theorem run_apps (T : Path) (pieces : List Bytes) (st : Store) (old : Bytes)
+    (h : get st T = some (.raw old)) :
+    get (run (pieces.map (Effect.app T)) st) T = some (.raw (old ++ pieces.flatten)) := by
+  induction pieces generalizing st old with
+  | nil => simpa [run] using h
+  | cons x rest ih =>
+    simp only [List.map_cons, run, List.flatten_cons]
+    have : get (apply (.app T x) st) T = some (.raw (old ++ x)) := by simp [apply, h, get_set]
+    rw [ih _ _ this, List.append_assoc]
+
+theorem newLayer_spec {hash : Bytes → Digest} (env : Env) (henv : env.hash = hash) (k : Nat)
+    (pieces : List Bytes) (st : Store) :
+    SeqOK hash st (newLayer env k pieces st).effs ∧
+    Ext st (run (newLayer env k pieces st).effs st) ∧
+    present (run (newLayer env k pieces st).effs st) (.blob (hash pieces.flatten)) = true ∧
+    (newLayer env k pieces st).ok = true := by
+  subst henv
+  unfold newLayer
+  have hpre : ∀ e ∈ [Effect.mk (.temp k)] ++ pieces.map (Effect.app (.temp k)), isScratchEff e = true := by
+    intro e he
+    rcases List.mem_append.mp he with h | h
+    · simp at h; subst h; rfl
+    · obtain ⟨x, _, rfl⟩ := List.mem_map.mp h; rfl
+  by_cases hp : present st (.blob (env.hash pieces.flatten)) = true
+  · simp only [hp, ↓reduceIte]
+    have hall : ∀ e ∈ [Effect.mk (.temp k)] ++ pieces.map (Effect.app (.temp k)) ++ [Effect.rm (.temp k)],
+        isScratchEff e = true := by
+      intro e he
+      rcases List.mem_append.mp he with h | h
+      · exact hpre e h
+      · simp at h; subst h; rfl
+    refine ⟨seqOK_scratch hall, ?_, ?_, rfl⟩
+    · exact ⟨fun n => get_run_scratch hall rfl, fun d c h => by rw [get_run_scratch hall rfl]; exact h⟩
+    · unfold present at *; rw [get_run_scratch hall rfl]; exact hp
+  · simp only [hp, Bool.false_eq_true, ↓reduceIte]
+    have hnone : get st (.blob (env.hash pieces.flatten)) = none := by
+      unfold present at hp; cases hg : get st (.blob (env.hash pieces.flatten)) <;> simp [hg] at hp ⊢
+    -- state after the temp file has been written
+    have hT : get (run ([Effect.mk (.temp k)] ++ pieces.map (Effect.app (.temp k))) st) (.temp k)
+        = some (.raw pieces.flatten) := by
+      rw [run_append]
+      have := run_apps (.temp k) pieces (run [Effect.mk (.temp k)] st) [] (by simp [run, apply, get_set])
+      simpa using this
+    have hB : get (run ([Effect.mk (.temp k)] ++ pieces.map (Effect.app (.temp k))) st)
+        (.blob (env.hash pieces.flatten)) = none := by
+      rw [get_run_scratch hpre rfl]; exact hnone
+    have hmv : EffOK env.hash (run ([Effect.mk (.temp k)] ++ pieces.map (Effect.app (.temp k))) st)
+        (.mv (.temp k) (.blob (env.hash pieces.flatten))) :=
+      ⟨rfl, _, rfl, hB, _, hT, rfl⟩
+    have hseq : SeqOK env.hash st ([Effect.mk (.temp k)] ++ pieces.map (Effect.app (.temp k)) ++
+        [.mv (.temp k) (.blob (env.hash pieces.flatten)), .chmod (.blob (env.hash pieces.flatten))]) := by
+      rw [seqOK_append]
+      exact ⟨seqOK_scratch hpre, hmv, trivial, trivial⟩
+    refine ⟨hseq, ?_, ?_, rfl⟩
+    · rw [run_append]
+      constructor
+      · intro n
+        simp only [run]
+        rw [get_apply_of_not_written (by simp [writes]), get_apply_of_not_written (by simp [writes]),
+          get_run_scratch hpre rfl]
+      · intro d c h
+        simp only [run]
+        rw [get_apply_of_not_written (by simp [writes])]
+        by_cases hd : d = env.hash pieces.flatten
+        · subst hd; rw [hnone] at h; cases h
+        · rw [get_apply_of_not_written (by simp [writes]; exact hd), get_run_scratch hpre rfl]; exact h
+    · rw [run_append]
+      simp only [run, present]
+      rw [get_apply_of_not_written (by simp [writes])]
+      simp [apply, hT, get_set]
+
+theorem upload_spec {hash : Bytes → Digest} (env : Env) (henv : env.hash = hash) (k : Nat) (d : Digest)
+    (body : Bytes) (st : Store) :
+    SeqOK hash st (upload env k d body st).effs ∧ Ext st (run (upload env k d body st).effs st) := by
+  unfold upload; split
+  · exact ⟨trivial, Ext.refl st⟩
+  · have := newLayer_spec env henv k (env.chunk body) st
+    exact ⟨this.1, this.2.1⟩
+
+theorem uploads_spec {hash : Bytes → Digest} (env : Env) (henv : env.hash = hash) (k : Nat)
+    (ups : List (Digest × Bytes)) (st : Store) :
+    SeqOK hash st (uploads env k ups st).effs ∧ Ext st (run (uploads env k ups st).effs st) := by
+  induction ups generalizing st k with
+  | nil => exact ⟨trivial, Ext.refl st⟩
+  | cons u rest ih =>
+    obtain ⟨d, body⟩ := u
+    simp only [uploads]
+    have h1 := upload_spec env henv k d body st
+    have h2 := ih (k + 1) (run (upload env k d body st).effs st)
+    refine ⟨seqOK_andThen h1.1 (fun _ => h2.1), ?_⟩
+    rw [run_andThen]; split
+    · exact h1.2.trans h2.2
+    · exact h1.2
+
+theorem newLayers_spec {hash : Bytes → Digest} (env : Env) (henv : env.hash = hash) (k : Nat)
+    (datas : List Bytes) (st : Store) :
+    SeqOK hash st (newLayers env k datas st).effs ∧
+    Ext st (run (newLayers env k datas st).effs st) ∧
+    (newLayers env k datas st).ok = true ∧
+    ∀ x ∈ datas, present (run (newLayers env k datas st).effs st) (.blob (hash x)) = true := by
+  induction datas generalizing st k with
+  | nil => exact ⟨trivial, Ext.refl st, rfl, by simp⟩
+  | cons x rest ih =>
+    simp only [newLayers]
+    have h1 := newLayer_spec env henv k [x] st
+    have h2 := ih (k + 1) (run (newLayer env k [x] st).effs st)
+    have hok : (newLayer env k [x] st).ok = true := h1.2.2.2
+    refine ⟨seqOK_andThen h1.1 (fun _ => h2.1), ?_, ?_, ?_⟩
+    · rw [run_andThen, hok]; exact h1.2.1.trans h2.2.1
+    · rw [andThen_ok, hok, h2.2.2.1]; rfl
+    · intro y hy
+      rw [run_andThen, hok]
+      simp only [↓reduceIte]
+      rcases List.mem_cons.mp hy with rfl | hy
+      · have := h1.2.2.1
+        simp only [List.flatten_cons, List.flatten_nil, List.append_nil] at this
+        exact h2.2.1.present this
+      · exact h2.2.2.2 y hy
+
+/-! ## Layer.Remove / RemoveLayers / deleteUnusedLayers -/
+
+theorem removeLayers_seqOK {hash : Bytes → Digest} (ds : List Digest) (st : Store) :
+    SeqOK hash st (removeLayers ds st).effs := by
+  induction ds generalizing st with
+  | nil => trivial
+  | cons d rest ih =>
+    simp only [removeLayers]
+    apply seqOK_andThen
+    · unfold layerRemove; split
+      · trivial
+      · rename_i h
+        simp only [Bool.or_eq_true, Bool.not_eq_true', not_or, Bool.not_eq_true, Bool.not_eq_false] at h
+        exact ⟨Or.inr (Or.inr ⟨d, rfl, h.1⟩), trivial⟩
+    · intro _; exact ih _
+
+theorem seqOK_rms {hash : Bytes → Digest} (ds : List Digest) (st : Store)
+    (h : ∀ d ∈ ds, referenced st d = false) :
+    SeqOK hash st (ds.map (fun d => Effect.rm (.blob d))) := by
+  induction ds generalizing st with
+  | nil => trivial
+  | cons d rest ih =>
+    refine ⟨Or.inr (Or.inr ⟨d, rfl, h d (by simp)⟩), ih _ ?_⟩
+    intro d' hd'
+    rw [referenced_congr (st := st)]
+    · exact h d' (by simp [hd'])
+    · intro n; apply get_apply_of_not_written; simp [writes]
+
+theorem deleteUnused_seqOK {hash : Bytes → Digest} (env : Env) (hord : ∀ l x, x ∈ env.ord l → x ∈ l)
+    (cand : List Digest) (st : Store) : SeqOK hash st (deleteUnused env cand st).effs := by
+  unfold deleteUnused
+  apply seqOK_rms
+  intro d hd
+  have h1 := (List.mem_filter.mp hd).1
+  have h2 := (List.mem_filter.mp (hord _ _ h1)).2
+  simpa using h2
+
 end OllamaVerif.StoreCrash
